@@ -55,6 +55,7 @@ type World struct {
 	qleft    int
 	change   map[int64]bool // pct: steps at which the running task drops to the lowest priority
 	lowPrio  int
+	dirty    bool // pct: a task was created, finished or unblocked since the last scheduling decision
 	maxTasks int
 	spawnNum int // probability numerator (/4) that a part becomes its own task
 
@@ -101,6 +102,7 @@ func (w *World) newTask(job int, name string, fn func()) *task {
 		t.prio = 1000 + w.ch.Choose(1000)
 	}
 	w.tasks = append(w.tasks, t)
+	w.dirty = true
 	go func() {
 		<-t.resume
 		fn()
@@ -170,10 +172,15 @@ func (w *World) yield(site int) {
 		w.gap = 1 + w.ch.Choose(2*w.den)
 		next = w.pickOther(t)
 	case stratPCT:
+		// the running task is the highest-priority runnable one unless a change point demotes it now
+		// or the task set changed since the last decision
 		if w.change[w.steps] {
 			w.lowPrio--
 			t.prio = w.lowPrio
+		} else if !w.dirty {
+			return
 		}
+		w.dirty = false
 		next = w.pickOther(t)
 		if next != nil && next.prio < t.prio {
 			next = nil
@@ -217,6 +224,7 @@ func (w *World) block(other *task) {
 
 func (w *World) finish(t *task) {
 	t.done = true
+	w.dirty = true
 	next := w.pickOther(t)
 	if next == nil {
 		for _, x := range w.tasks {
